@@ -129,10 +129,10 @@ def proj(o, ident=False):
         # special layouts (TriangularLatticeLayout, ...) are RegisterLayouts with a constructor of
         # their own; the format carries coordinates and slug only and == is defined on those
         cname = "RegisterLayout" if isinstance(o, RegisterLayout) else type(o).__name__
-        d = {"__class__": cname, "coords": P(o.sorted_coords), "slug": o.slug,
-             "hash": o.static_hash()}
+        d = {"__class__": cname, "coords": P(o.sorted_coords), "slug": o.slug}
         if isinstance(o, WeightMap):
             d["weights"] = P(o.sorted_weights)
+        d["hash"] = o.static_hash()
         return d
     if isinstance(o, BaseRegister):
         li = o._layout_info
@@ -1385,9 +1385,13 @@ def run(tier):
     t0 = time.time()
     res, pts = enumerate_points("C17", "noise", "NoiseTable",
                                 {"Mode": '"noise"', "Zeroable": zero, "MaxSet": "99"}, NZ_INV)
-    every = 4 if quick else 2
-    for n, p in enumerate(pts):       # JSON route (35 ms of library validation) on every `every`-th point
-        p["j"] = bool(p["gap"]) and n % 2 == 0 or n % every == 0 or sum(1 for v in p["a"] if v != 1) <= 3
+    every = 6 if quick else 2
+    for n, p in enumerate(pts):
+        # JSON route (5 ms of library validation each): every `every`-th point, all points with few
+        # parameters given, and a third / half of the points where the model predicts the lossy decode
+        given = sum(1 for v in p["a"] if v != 1)
+        p["j"] = (n % every == 0 or given <= (2 if quick else 3)
+                  or (bool(p["gap"]) and n % (3 if quick else 2) == 0))
     before = agg["tests"]
     run_pool(noise_job, [("noise", ch, every) for ch in chunks(pts, 200)], V, agg)
     tot_states += res.distinct
